@@ -67,3 +67,58 @@ Print Assumptions C14_identical_payload.
 Print Assumptions C14_recipients.
 Print Assumptions C14_frame_fanout.
 Print Assumptions C14_recipients_of_every_evaluation.
+
+(* ---- world level (Proofs/TrackFrameP.v): two holders of a shared context, in ANY well-formed registry, see one
+   common instance, and receive for every action of that context the same events with identical payload in a frame -
+   both streams are the transition table of the one common ActionData ---- *)
+From BEI Require Import Proofs.StateP Proofs.RegistryP Proofs.TrackDefs Proofs.TrackFrameP.
+Lemma shared_holders_one_instance : forall r c e1 e2,
+  Forall group_ok r -> ctx_shared c = true -> reg_get c e1 r <> None -> reg_get c e2 r <> None -> reg_get c e1 r = reg_get c e2 r.
+Proof.
+  intros r c e1 e2 Hok Hsh H1 H2. unfold reg_get in *.
+  destruct (index_of c r) as [n|] eqn:Ei; [|reflexivity].
+  destruct (index_of_nth c r n Ei) as (g & Hn & Hc & Hin). rewrite Hn in *.
+  rewrite Forall_forall in Hok. destruct (Hok g Hin) as (_ & Hs & _).
+  destruct g as [c' p insts|c' p ents i]; cbn [g_shared g_ctx] in Hs, Hc.
+  - subst c'. rewrite Hsh in Hs. discriminate.
+  - destruct (existsb (Z.eqb e1) ents); [|congruence]. destruct (existsb (Z.eqb e2) ents); [reflexivity | congruence].
+Qed.
+Theorem C14_world_shared_identical : forall sc c e1 e2 a tm r c0 gs d1 d2,
+  reg_wf gs -> cfg_inv sc gs -> owner sc c a -> ev_free sc c a ->
+  ctx_shared c = true ->
+  stored gs c e1 a = Some d1 -> stored gs c e2 a = Some d2 ->
+  d1 = d2 /\
+  forall main, ro_events (reg_update tm r c0 gs) = Some main ->
+    map retarget (ev_of e1 a main) = map retarget (ev_of e2 a main) /\
+    stored (ro_reg (reg_update tm r c0 gs)) c e1 a = stored (ro_reg (reg_update tm r c0 gs)) c e2 a.
+Proof.
+  intros sc c e1 e2 a tm r c0 gs d1 d2 Hwf Hcfg Ho Hf Hsh H1 H2.
+  assert (Hst : forall r', Forall group_ok r' -> stored r' c e1 a <> None -> stored r' c e2 a <> None -> stored r' c e1 a = stored r' c e2 a).
+  { intros r' Hok A B. unfold stored in *.
+    assert (G : reg_get c e1 r' = reg_get c e2 r').
+    { apply shared_holders_one_instance; [exact Hok | exact Hsh | |];
+        [destruct (reg_get c e1 r'); congruence | destruct (reg_get c e2 r'); congruence]. }
+    rewrite G. reflexivity. }
+  destruct Hwf as (Hsort & Hnd & Hok).
+  assert (Hd : d1 = d2).
+  { pose proof (Hst gs Hok ltac:(congruence) ltac:(congruence)) as E. rewrite H1, H2 in E. congruence. }
+  subst d2. split; [reflexivity|]. intros main Hm.
+  destruct (track_frame sc c e1 a tm r c0 gs (conj Hsort (conj Hnd Hok)) Hcfg Ho Hf) as (m1 & Hm1 & _ & T1).
+  destruct (track_frame sc c e2 a tm r c0 gs (conj Hsort (conj Hnd Hok)) Hcfg Ho Hf) as (m2 & Hm2 & _ & T2).
+  cbv zeta in Hm1, Hm2, T1, T2. rewrite Hm in Hm1, Hm2. injection Hm1 as <-. injection Hm2 as <-.
+  rewrite H1 in T1. rewrite H2 in T2.
+  destruct T1 as (s1 & v1 & _ & S1 & E1). destruct T2 as (s2 & v2 & _ & S2 & E2).
+  destruct (reg_update_spec tm r gs c0) as (Sh & Swf & _).
+  assert (Hok' : Forall group_ok (ro_reg (reg_update tm r c0 gs))).
+  { assert (W : reg_wf (ro_reg (reg_update tm r c0 gs))) by (apply (same_shape_wf _ _ Sh); [apply Swf, reg_wf_insts; repeat split; assumption | repeat split; assumption]).
+    apply W. }
+  pose proof (Hst _ Hok' ltac:(congruence) ltac:(congruence)) as Hsame.
+  split; [|exact Hsame].
+  rewrite S1, S2 in Hsame. injection Hsame as Hd.
+  rewrite E1, E2, !map_map.
+  assert (Hs : s1 = s2).
+  { pose proof (data_update_fields (vdelta tm) d1 s1 v1) as (A1 & _). pose proof (data_update_fields (vdelta tm) d1 s2 v2) as (A2 & _).
+    rewrite <- A1, <- A2, Hd. reflexivity. }
+  subst s2. apply map_ext. intros k. rewrite Hd. destruct k; reflexivity.
+Qed.
+Print Assumptions C14_world_shared_identical.
